@@ -152,35 +152,40 @@ def phase_random(run, pool, budget_s, n_max=None):
     run.phase_info["random"] = {"runs": run.evals - n0, "wall_s": round(time.time() - t, 1)}
 
 
-def phase_xproc(run, n, hashseeds=("1", "77")):
-    """Same run-seeds in zygotes with different PYTHONHASHSEED: event and result digests must agree."""
+def phase_xproc(run, n, hashseeds=("1", "77"), cpus=(1, 6), extra_programs=()):
+    """Same histories in zygotes with different PYTHONHASHSEED and a different simulated number of usable CPUs:
+    event and result digests must agree (process-environment independence of keyed results)."""
     t = time.time()
     digs = {}
-    for hs in hashseeds:
-        with Pool(run.workers, (hs, )) as pool:
+    extra_programs = list(extra_programs)
+    for hs, ncpu in zip(hashseeds, cpus):
+        with Pool(run.workers, (hs, ), cpus=ncpu) as pool:
             def on(job, res, hs=hs):
                 digs.setdefault(job["id"], {})[hs] = (res.get("status"), res.get("events_digest"),
                                                       res.get("results_digest"), job["run_seed"])
-            jobs = ({"id": i, "kind": "seed", "property": run.prop, "tier": run.tier, "want_program": False,
-                     "run_seed": P.derive_seed(run.seed, run.prop, run.tier, i), "deadline": 240} for i in range(n))
-            pool.run(jobs, on)
+            jobs = [{"id": i, "kind": "seed", "property": run.prop, "tier": run.tier, "want_program": False,
+                     "run_seed": P.derive_seed(run.seed, run.prop, run.tier, i), "deadline": 240} for i in range(n)]
+            jobs += [{"id": "x%d" % j, "kind": "program", "program": p["program"], "want_program": False,
+                      "run_seed": "large:" + p["name"], "deadline": 240} for j, p in enumerate(extra_programs)]
+            pool.run(iter(jobs), on)
     mism = []
     compared = 0
-    for i, d in sorted(digs.items()):
+    for i, d in sorted(digs.items(), key=lambda kv: str(kv[0])):
         vals = list(d.values())
         if len(vals) < 2 or any(v[0] in ("env_crash", "env_hang", "harness_timeout") for v in vals):
             continue
         compared += 1
         if any(v[:3] != vals[0][:3] for v in vals[1:]):
             mism.append((i, vals[0][3], d))
-    run.phase_info["xproc"] = {"seeds_compared": compared, "hashseeds": list(hashseeds), "mismatches": len(mism),
-                               "wall_s": round(time.time() - t, 1)}
+    run.phase_info["xproc"] = {"histories_compared": compared, "of_which_large_draw_programs": len(extra_programs),
+                               "hashseeds": list(hashseeds), "simulated_cpu_counts": list(cpus),
+                               "mismatches": len(mism), "wall_s": round(time.time() - t, 1)}
     run.stats["xproc_runs_compared"] += compared
     return mism
 
 
-def fresh_interpreter_run(prog_or_seed, prop, hashseed="123", tier="quick"):
-    env = zygote_env(hashseed)
+def fresh_interpreter_run(prog_or_seed, prop, hashseed="123", tier="quick", cpus=None):
+    env = zygote_env(hashseed, cpus)
     if isinstance(prog_or_seed, dict):
         path = os.path.join("/tmp", "verif-replay-%d-%s.json" % (os.getpid(), hashlib.sha1(
             json.dumps(prog_or_seed, sort_keys=True).encode()).hexdigest()[:10]))
